@@ -102,13 +102,25 @@ Split split_stream(const std::string &s, long max_message_size) {
   return sp;
 }
 
+// the offending message cut to its own declared length (what follows it in the stream is not part of the question)
+static std::string offending_message(const Split &sp) {
+  wire::ParseResult r = wire::parse(sp.offending);
+  if (r.total_len > 0 && r.total_len <= sp.offending.size()) return sp.offending.substr(0, r.total_len);
+  return sp.offending;
+}
+
 // Which listed finding (known_findings.json ids, passed in SIM_KNOWN) explains this disagreement, if any.
-static std::string known_gap(const std::set<std::string> &known, bool lib_accepted, const std::string &reason, const wire::Msg *m) {
+static std::string known_gap(const std::set<std::string> &known, bool lib_accepted, const std::string &reason, const wire::Msg *m, const std::string &offending = std::string(), long maxmsg = -1) {
   auto has = [&](const char *id) { return known.count(id) ? std::string(id) : std::string(); };
   if (lib_accepted) {
+    // the two listed validator findings are recognised by their exact condition: the offending message would be
+    // valid if - and only if - the reference's deviation were the rule (dict entries on a nesting budget of their
+    // own; unique names of a single element).  Any other defect of a signature or a name is not covered.
+    wire::Limits lim;
+    if (maxmsg >= 0) lim.max_message_size = (uint32_t)maxmsg;
     if (reason == "array-len-multiple") return has("C01-fixed-array-length-not-multiple");
-    if (reason == "sig" || reason == "variant-sig" || reason == "field-sig") return has("C01-signature-nesting-or-brackets");   // (signature strings only: value nesting beyond 64, reason "depth", is not part of that finding)
-    if (reason == "field-value" || reason == "name") return has("C01-unique-name-without-period");
+    if ((reason == "sig" || reason == "variant-sig" || reason == "field-sig") && !offending.empty() && wire::valid_if_relaxed(offending, 1, lim)) return has("C01-signature-nesting-or-brackets");
+    if ((reason == "field-value" || reason == "name") && !offending.empty() && wire::valid_if_relaxed(offending, 2, lim)) return has("C01-unique-name-without-period");
     return "";
   }
   if (m) {
@@ -241,7 +253,7 @@ core::RunResult run_stream(const Plan &plan, bool log) {
           fail("oracle:C01:accessor", "%s: message %zu read through the public API differs from the independent decoding: %s", label, i, why.c_str());
       }
       if (n > sp.valid.size()) {
-        std::string id = sp.invalid ? known_gap(known, true, sp.reason, nullptr) : "";
+        std::string id = sp.invalid ? known_gap(known, true, sp.reason, nullptr, offending_message(sp), maxmsg) : "";
         if (!id.empty()) { counters["finding:" + id]++; tainted = true; continue; }
         fail("oracle:C01:accepted-invalid", "%s: the library produced %zu messages, the stream holds %zu valid ones%s", label, n, sp.valid.size(),
              sp.invalid ? (" followed by an invalid message (" + sp.reason + ")").c_str() : " followed by an incomplete one");
@@ -253,7 +265,7 @@ core::RunResult run_stream(const Plan &plan, bool log) {
              c->disconnected ? "then the connection was declared corrupt" : "connection still open");
       }
       if (sp.invalid && !c->disconnected) {
-        std::string id = known_gap(known, true, sp.reason, nullptr);
+        std::string id = known_gap(known, true, sp.reason, nullptr, offending_message(sp), maxmsg);
         if (!id.empty()) { counters["finding:" + id]++; tainted = true; continue; }
         fail("oracle:C01:accepted-invalid", "%s: the stream contains an invalid message (%s) but the connection was not declared corrupt", label, sp.reason.c_str());
       }
@@ -292,7 +304,7 @@ core::RunResult run_stream(const Plan &plan, bool log) {
         DBusMessage *m = dbus_message_demarshal(sp.offending.data(), (int)r.total_len, &err);
         if (m) {
           dbus_message_unref(m);
-          std::string id = known_gap(known, true, sp.reason, nullptr);
+          std::string id = known_gap(known, true, sp.reason, nullptr, offending_message(sp), maxmsg);
           if (!id.empty()) counters["finding:" + id]++;
           else fail("oracle:C01:demarshal", "dbus_message_demarshal accepts a message the independent codec rejects (%s)", sp.reason.c_str());
         } else dbus_error_free(&err);
@@ -419,7 +431,16 @@ static wire::Msg targeted(wiregen::Rng &r) {
     case 1: m.set_field(wire::F_PATH, Value::path(r.chance(50) ? "/org/freedesktop/DBus/Locale" : "/org/freedesktop/DBus/Local/x")); break;
     case 2: m.set_field(wire::F_INTERFACE, Value::string("org.freedesktop.DBus.Local")); break;                                                  // invalid (reserved)
     case 3: { m.big_endian = true; m.set_body({Value::u32(7), Value::array("q", {Value::u16(1), Value::u16(2)}), Value::string("be")}); break; }
-    case 4: { std::string open(32, '('), close(32, ')'); m.set_body({Value::sigval(open + "i" + close)}); break; }                               // 32 structs: allowed
+    case 4: {
+      // signature nesting around the limits (32 arrays, 32 structs, 64 in total, dict entries counting as structs):
+      // the codec says which are valid; the reference's separate budget for dict entries is a listed finding
+      if (r.chance(30)) { std::string open(32, '('), close(32, ')'); m.set_body({Value::sigval(open + "i" + close)}); break; }                   // 32 structs: allowed
+      int ns = 29 + (int)r.below(5), na = r.chance(40) ? 0 : 28 + (int)r.below(6);
+      static const char *inner[] = {"i", "a{sv}", "a{sa{sv}}", "a{s(i)}", "(a{sv})"};
+      std::string sig = std::string(ns, '(') + std::string(na, 'a') + inner[r.below(5)] + std::string(ns, ')');
+      m.set_body({Value::sigval(sig)});
+      break;
+    }
     case 5: { m.set_body({Value::sigval(std::string(32, 'a') + "i")}); break; }                                                                  // 32 arrays: allowed
     default: { m.set_field(wire::F_DESTINATION, Value::string(":1.0")); m.set_field(wire::F_SENDER, Value::string(":a-b.c_d")); break; }
   }
